@@ -513,6 +513,14 @@ def run_pspace_indexing(ctx):
                           (np.array_equal(np.asarray(wp.array), np.asarray(wc.array)) if hasattr(wp, 'array') else getattr(wp, 'const', None) == getattr(wc, 'const', None)))
                 if not same_w:
                     ctx.violation('ProductSpace.' + how.split('(')[0], pn, 'weighting-not-kept', got=str(wc), want=str(wp))
+                cplx = any(np.dtype(l.dtype).kind == 'c' for _q, l in util.leaves(c))
+                if c.field != (odl.ComplexNumbers() if cplx else odl.RealNumbers()):
+                    ctx.violation('ProductSpace.' + how.split('(')[0], pn, 'field-is-not-that-of-the-components', got=str(c.field))
+                else:
+                    one = c.one()
+                    sc = (1.5 - 0.5j) if cplx else 1.5
+                    if not np.allclose(util.to_cvec(c, sc * one), sc):
+                        ctx.violation('ProductSpace.' + how.split('(')[0], pn, 'scalar-of-the-field-not-usable')
                 if how in ('complex_space.real_space', 'astype(complex64).astype(float64)') and c != p:
                     ctx.violation('ProductSpace.' + how.split('(')[0], pn, 'roundtrip!=space', got=util.srepr(c, 100))
             except Exception as e:
